@@ -301,6 +301,11 @@ func buildEntropyIndexKey(entropy float64, id string) []byte {
 }
 
 func FormatEntropyKey(entropy float64, id string) string {
+	// Negative zero prints as "-00.0000" but is stored (gob) and compared as zero: the key derived
+	// later from the record would never match the one written now.
+	if entropy == 0 {
+		entropy = 0
+	}
 	return fmt.Sprintf("%08.4f:%s", entropy, id)
 }
 
